@@ -20,7 +20,7 @@ try:
         cnt = int(sys.argv[5]) if len(sys.argv) > 5 else 1
         s = s.replace(old, new, cnt)
         open(p, "w").write(s)
-    env = dict(os.environ, PYVC_REPO=tmp)
+    env = dict(os.environ, PYVC_REPO=tmp, PYVC_OUT=os.path.join(tmp, "out"))
     r = subprocess.run(["python3-vt", f"/verif/props/{pid}.py"] + ([] if "--tier" not in sys.argv else sys.argv[sys.argv.index("--tier"):]),
                        env=env, capture_output=True, text=True, cwd="/verif")
     out = r.stdout.replace(tmp, "<scratch>")
